@@ -24,7 +24,8 @@ from harness.pool import pmap
 PROP = "C17"
 OPS = ["mean", "min", "max", "median", "std", "var", "sum", "prod", "all", "any"]
 DESTS = ["face", "edge"]
-INVS = ["TypeOK", "L2_Partition", "L2_FaceAgg", "PaddingIrrelevant", "WholeTableIsWrong", "L2_EdgeAgg", "Laws", "TracerReadable"]
+INVS = ["TypeOK", "L2_Partition", "L2_FaceAgg", "PaddingIrrelevant", "WholeTableIsWrong", "L2_EdgeAgg", "Laws", "NonFinite", "TracerReadable"]
+NANV, PINFV, NINFV = 1000001, 1000002, 1000003  # sentinels of Aggregate.tla for NaN, +inf, -inf in data rows and results
 PADS = [0, 1, 2]  # extra width of the stored face-node table beyond its widest face (AggScope.Pads)
 LEAD_NAMES = ["time", "lev", "ens"]
 TOL = 1e-12
@@ -84,6 +85,29 @@ def gen_layouts(ctx):
     return out
 
 
+def inject_nonfinite(rows, k):
+    """Replace entries of the canonical rows by the sentinels of Aggregate.tla (materialised as NaN / inf)."""
+    n = len(rows[0])
+    for j, row in enumerate(rows):
+        mode = (k + j) % 5
+        a, b = (k + 2 * j) % n, (k + 3 * j + 1) % n
+        if mode == 0:
+            row[a] = NANV
+        elif mode == 1:
+            row[a] = PINFV
+            if b != a:
+                row[b] = NINFV
+        elif mode == 2:
+            row[a] = NINFV
+        elif mode == 3:
+            for i in range(n):
+                row[i] = [NANV, PINFV, NINFV][(k + j) % 3]  # every corner of every element
+        else:
+            row[a] = PINFV
+            if b != a:
+                row[b] = NANV
+
+
 def shape_case(cid, k, mesh, n_node, rows4, layout=None, backing=None, **extra):
     """Pick layout / dtype / denominator / backing by the case counter so all combinations occur."""
     lay = layout if layout is not None else LAYOUTS[k % len(LAYOUTS)]
@@ -103,6 +127,9 @@ def shape_case(cid, k, mesh, n_node, rows4, layout=None, backing=None, **extra):
     c["backing"] = backing or ("dask" if (k // 18) % 6 == 1 else "numpy")
     # table layout: the stored face-node table as wide as its widest face, or 1 / 2 columns wider (every row padded)
     c["pad"] = PADS[(k // 2) % len(PADS)]
+    # float data: one case in three carries non-finite values (NaN / +inf / -inf at one, two or all nodes of a row)
+    if dtype == "float" and (k // 27) % 3 == 1:
+        inject_nonfinite(c["rows"], k)
     c.update(extra)
     return c
 
@@ -119,7 +146,11 @@ def proj(x, squared=False):
     if r is not None:
         return r
     x = float(x)
-    if not math.isfinite(x) or abs(x) > 1e6:
+    if x != x:
+        r = [NANV, 0, 0]
+    elif x == math.inf or x == -math.inf:
+        r = [PINFV if (x > 0 or squared) else NINFV, 0, 0]
+    elif abs(x) > 1e6:
         r = [0, 0, 0]
     else:
         y = x * x if squared else x
@@ -195,6 +226,8 @@ def record_case(case):
         arr = np.array(case["rows"], dtype=np.int64).reshape(lead + [case["n_node"]])
         arr = np.ascontiguousarray(np.moveaxis(arr, -1, pos))  # the node axis at its position in this layout
         data = (arr / case["den"]).astype(npdt) if case["den"] != 1 else arr.astype(npdt)
+        if (arr >= NANV).any():  # sentinels -> NaN, +inf, -inf (float data only)
+            data = np.where(arr == NANV, np.nan, np.where(arr == PINFV, np.inf, np.where(arr == NINFV, -np.inf, data)))
         dims = ins(rec["lead_dims"], "n_node")
         rec["backing"] = case.get("backing", "numpy")
         if rec["backing"] == "dask":
@@ -500,6 +533,21 @@ def run(ctx):
         for pad in PADS[1:]:
             for j, backing in enumerate(("numpy", "dask")):
                 cases.append(shape_case("wide:%s:pad%d:%s" % (nm, pad, backing), 3 * pad + j, m, 6, lay_rows, backing=backing, pad=pad))
+    # non-finite data, exhaustively on the fixed mixed mesh: each sentinel at each single node, the two infinities at
+    # every ordered pair of nodes, NaN next to an infinity, and rows that are non-finite everywhere; numpy and dask
+    base = lay_rows[1]
+    nf_rows = []
+    for sv in (NANV, PINFV, NINFV):
+        nf_rows += [[sv if i == j else v for i, v in enumerate(base)] for j in range(6)]
+        nf_rows.append([sv] * 6)
+    nf_rows += [[PINFV if i == a else NINFV if i == b else v for i, v in enumerate(base)] for a in range(6) for b in range(6) if a != b]
+    nf_rows += [[NANV if i == a else PINFV if i == (a + 1) % 6 else v for i, v in enumerate(base)] for a in range(6)]
+    nf_rows.append([PINFV, NINFV] * 3)
+    for j, row in enumerate(nf_rows):
+        for backing in ("numpy", "dask"):
+            c = shape_case("nonfinite:%d:%s" % (j, backing), 3, lay_mesh, 6, lay_rows, layout={"pos": 0, "lead": []}, backing=backing, pad=j % 3)
+            c.update({"rows": [list(row)], "dtype": "float", "den": 1})
+            cases.append(c)
     ctx.exhaustive = True
     n_small = len(cases)
 
@@ -596,6 +644,7 @@ def run(ctx):
         "data are small integers or halves, so sums / products / extrema are exact in binary floating point",
         "'node-centred arrays of any rank' is read as: the node dimension may sit at any position (as the fix ba0bc77d established); the destination dimension must take that position",
         "table layouts: face-node tables 0 / 1 / 2 columns wider than their widest face (AggScope.Pads); histories: subset / copy / dual handles are judged on their OWN face_node and edge_node tables (their faithfulness to the parent is C09 / C18)",
+        "non-finite float data: the expected value is the IEEE result of the reduction over the element's own corners as numpy computes it (NaN propagates through all but all/any, where it is true; var/std are NaN as soon as a value is not finite), compared by kind and sign exactly",
         "dask-backed (chunked) node data exercised on one block of cases in six; results are computed eagerly by the library",
     ]
 
